@@ -609,10 +609,12 @@ structure Root where
   started : Bool
   err : Option Nat      -- the error carried through reduce's error-cleanup
   ended : Bool          -- manual driver: the last next() returned done / error
+  delivered : List Nat  -- history: the elements handed to the consumer so far, in order
+  result : Option Outcome   -- history: the consumer's completion (manual driver: cleanup's result)
   deriving DecidableEq, Repr
 
 def Root.init (c : Consumer) (e : SExpr) : Root :=
-  ⟨connect e, c, c.init, .idle, false, false, none, false⟩
+  ⟨connect e, c, c.init, .idle, false, false, none, false, [], none⟩
 
 /-- reduce's final completion: cleanup error, else the carried error, else the state -/
 def finalResult (err ce : Option Nat) (acc : Nat) : Outcome :=
@@ -632,16 +634,20 @@ def rootAfter : Nat → Root → Res → Root × List Out
     | some (.next o) =>
       match rt.cons.kind with
       | .manual =>
-        ({ rt1 with ph := .idle, ended := (match o with | .value _ => false | _ => true) }, r.2.1 ++ [.manNext o])
+        ({ rt1 with ph := .idle, ended := (match o with | .value _ => false | _ => true),
+                    delivered := (match o with | .value v => rt.delivered ++ [v] | _ => rt.delivered) },
+          r.2.1 ++ [.manNext o])
       | _ =>
         match o with
         | .value v =>
           match rt.cons.step rt.acc v with
           | .ok acc' =>
-            let p := rootAfter n { rt1 with acc := acc' } (deliver specs (r.1.need specs) (.next rt.stopped) r.1)
+            let p := rootAfter n { rt1 with acc := acc', delivered := rt.delivered ++ [v] }
+              (deliver specs (r.1.need specs) (.next rt.stopped) r.1)
             (p.1, r.2.1 ++ [.elem v] ++ p.2)
           | .error e =>
-            let p := rootAfter n { rt1 with ph := .cleaning, err := some e } (deliver specs (r.1.need specs) .cleanup r.1)
+            let p := rootAfter n { rt1 with ph := .cleaning, err := some e, delivered := rt.delivered ++ [v] }
+              (deliver specs (r.1.need specs) .cleanup r.1)
             (p.1, r.2.1 ++ [.elem v] ++ p.2)
         | .done =>
           let p := rootAfter n { rt1 with ph := .cleaning } (deliver specs (r.1.need specs) .cleanup r.1)
@@ -651,8 +657,12 @@ def rootAfter : Nat → Root → Res → Root × List Out
           (p.1, r.2.1 ++ p.2)
     | some (.clean ce) =>
       match rt.cons.kind with
-      | .manual => ({ rt1 with ph := .finished }, r.2.1 ++ [.manClean ce])
-      | _ => ({ rt1 with ph := .finished }, r.2.1 ++ [.result (finalResult rt.err ce rt.acc)])
+      | .manual =>
+        ({ rt1 with ph := .finished, result := some (match ce with | some e => .error e | none => .done) },
+          r.2.1 ++ [.manClean ce])
+      | _ =>
+        ({ rt1 with ph := .finished, result := some (finalResult rt.err ce rt.acc) },
+          r.2.1 ++ [.result (finalResult rt.err ce rt.acc)])
 
 inductive REv
   | start | stop | compNext (i : Nat) | compClean (i : Nat) | next | cleanup
